@@ -96,6 +96,35 @@ def time_harness(core, sw, ch, sr, view, den, a_kind, b_kind):
     return path
 
 
+def twostep_harness(core, sw, ch, sr, view, den):
+    """views of a region obtained by slicing refer to that region, not to its parent"""
+    bps = sw * ch
+
+    def path(e):
+        D, data = byt.sym_audio(e, "D", bps)
+        n = D.nsamples
+        a0, pa = I("a0"), I("a")
+        e.assume(z3.And(a0 >= 0, a0 <= n))
+        meta = dict(sw=sw, ch=ch, sr=sr, view=view, den=den, kind="twostep")
+        try:
+            sub = core.AudioRegion(data, sr, sw, ch)[slice(SymInt(a0), None)]
+            v = sub.sec if view == "sec" else sub.ms
+            res = v[slice(SymRat(pa, den) if view == "sec" else SymInt(pa), None)]
+            ln = core.__sx_len__(sub)
+        except Exception as ex:
+            return cex_now(e, "raised %s: %s" % (type(ex).__name__, str(ex)[:60]), dict(n=n, a0=a0, a=pa), meta)
+        q = den if view == "sec" else 1000
+        s0 = e.fresh("s0")
+        x = pa * sr
+        e.add(z3.If(x >= 0, z3.And(s0 * q <= x, x < (s0 + 1) * q), z3.And((s0 - 1) * q < x, x <= s0 * q)))
+        m = n - a0
+        lo, hi = byt.py_slice_terms(s0, None, m)
+        conds = {"sub-region length": toint(ln) == m,
+                 "time view of the sub-region slices the sub-region": slice_goal(res.data, D, (a0 + lo) * bps, (a0 + hi) * bps)}
+        return finish(e, conds, dict(n=n, a0=a0, a=pa), meta)
+    return path
+
+
 def type_harness(core, case):
     def path(e):
         D, data = byt.sym_audio(e, "D", 2)
@@ -169,6 +198,20 @@ def replay_fn(c):
     samples = [data[i * bps:(i + 1) * bps] for i in range(n)]
     reg = ak.AudioRegion(data, sr, sw, ch)
     a, b = c.get("a"), c.get("b")
+    if c.get("kind") == "twostep":
+        q = c["den"] if c["view"] == "sec" else 1000
+        t = a / q
+        try:
+            sub = reg[c["a0"]:]
+            res = sub.sec[t:] if c["view"] == "sec" else sub.ms[a:]
+        except Exception as ex:
+            return [("C16: slicing raises %s" % type(ex).__name__, str(ex))]
+        subs = samples[c["a0"]:]
+        wants = {b"".join(subs[s0:]) for s0 in {int(fractions.Fraction(t) * sr), int(t * sr)}}
+        if res.data in wants:
+            return []
+        return [("C16: time view of a sliced region does not slice that region",
+                 "region[%d:].%s[%r:] on a %d-sample region returns %d bytes, expected %s" % (c["a0"], c["view"], t if c["view"] == "sec" else a, n, len(res.data), sorted(len(w) for w in wants)))]
     try:
         if c["view"] == "samples":
             res = reg[a:b]
@@ -244,6 +287,11 @@ def run(rep):
                         ex = explore(time_harness(core, sw, ch, sr, view, den, ak_, bk), workers=4)
                         rep.add_exploration(hn, ex)
                         tok.handle_cex(rep, hn, ex, replay_fn, ideal=True)
+    for view, den in (("sec", 1000), ("ms", 1000), ("sec", 1024)):
+        hn = "twostep[%s,q=%d]" % (view, den)
+        ex = explore(twostep_harness(core, 2, 1, 10, view, den), workers=4)
+        rep.add_exploration(hn, ex)
+        tok.handle_cex(rep, hn, ex, replay_fn, ideal=True)
     for case in TYPE_CASES:
         ex = explore(type_harness(core, case), workers=1)
         rep.add_exploration("types[%s]" % case, ex)
